@@ -169,6 +169,7 @@ def check(ctx):
     else:
         ch = _class_chain(pt, None)
         tags = {}
+        recognised = ch is not None
         if ch is not None:
             for tag, body, test in ch[0]:
                 calls = [c for s in body for c in ast.walk(s) if isinstance(c, ast.Call) and getattr(c.func, 'id', '').startswith('parse_')]
@@ -184,6 +185,29 @@ def check(ctx):
                     if isinstance(x, (ast.Raise, ast.Return, ast.Break)):
                         run.violation('C05.siblings', pt.module.name, pt.qualname, x,
                                       'an unknown nested type aborts the remaining types of the interface', node=x)
+        else:
+            td = _table_dispatch(jmod, pt)
+            if td is not None:
+                recognised = True
+                table, node = td
+                apps = [c for s in node.body for c in ast.walk(s) if isinstance(c, ast.Call) and isinstance(c.func, ast.Attribute) and c.func.attr == 'append']
+                for tag, fname in table.items():
+                    pf = jmod.functions.get(fname)
+                    tags[tag] = _assert_class_literal(pf) if pf else None
+                    ok = tags[tag] == tag and len(apps) == 1
+                    run.add('C05.dispatch', pt.module.name, pt.qualname, f"table entry '{tag}': {fname}", ok,
+                            f"nested type '{tag}' parsed by {fname} (dispatch table) and kept once" if ok else
+                            f"nested type '{tag}': parser asserts '{tags[tag]}', appended {len(apps)}x", node=node)
+                for s in node.orelse:
+                    for x in ast.walk(s):
+                        if isinstance(x, (ast.Raise, ast.Return, ast.Break)):
+                            run.violation('C05.siblings', pt.module.name, pt.qualname, x,
+                                          'an unknown nested type aborts the remaining types of the interface', node=x)
+        if not recognised:
+            run.error('C05.dispatch', pt.module.name, pt.qualname, 'nested type dispatch',
+                      'the dispatch on the nested type class is neither an if/elif chain on string literals nor a lookup '
+                      'in a module-level table of parse functions: not modelled')
+            tags = {'enum': 'enum', 'subint': 'subint'}
         ok = set(tags) == {'enum', 'subint'}
         run.add('C05.dispatch', pt.module.name, pt.qualname, 'nested type coverage', ok,
                 'enum and subint nested types are parsed' if ok else f'nested types handled: {sorted(tags)}')
@@ -328,6 +352,26 @@ def _class_chain(fn: FuncInfo, var: Optional[str]):
                         outer = m
                 best = (chain, else_body, outer)
     return best
+
+
+def _table_dispatch(jmod, fn: FuncInfo):
+    """`if <x> in TABLE: ... TABLE[<x>](...)` with TABLE a module-level dict {'<class>': parse_function}."""
+    for n in ast.walk(fn.node):
+        if isinstance(n, ast.If) and isinstance(n.test, ast.Compare) and len(n.test.ops) == 1 and \
+                isinstance(n.test.ops[0], ast.In) and isinstance(n.test.comparators[0], ast.Name) and isinstance(n.test.left, ast.Name):
+            tname, var = n.test.comparators[0].id, n.test.left.id
+            dnode = jmod.assigns.get(tname)
+            if not isinstance(dnode, ast.Dict):
+                continue
+            if not all(isinstance(k, ast.Constant) and isinstance(k.value, str) and isinstance(v, ast.Name)
+                       for k, v in zip(dnode.keys, dnode.values)):
+                continue
+            used = [c for s in n.body for c in ast.walk(s) if isinstance(c, ast.Call) and isinstance(c.func, ast.Subscript)
+                    and isinstance(c.func.value, ast.Name) and c.func.value.id == tname
+                    and isinstance(c.func.slice, ast.Name) and c.func.slice.id == var]
+            if len(used) == 1:
+                return {k.value: v.id for k, v in zip(dnode.keys, dnode.values)}, n
+    return None
 
 
 def _assert_class_literal(fn: Optional[FuncInfo]) -> Optional[str]:
